@@ -26,7 +26,8 @@ func buildCallGraph(statements []ast.Statement) callGraph {
 		callerName := decl.Name.Value
 		callees := extractCallees(decl.Block)
 		if len(callees) > 0 {
-			graph[callerName] = callees
+			// A duplicated declaration must not hide the edges of the other one
+			graph[callerName] = append(graph[callerName], callees...)
 		}
 	}
 
